@@ -163,6 +163,16 @@ def make_listener(key, lid, acts, values, rec, mutable):
         return functools.partial(with_arg, lid)
 
     class Subscriber:
+        # distinct subscribers compare EQUAL (value objects): registrations are per call of listen(),
+        # not per equivalence class of callbacks
+        _is_subscriber = True
+
+        def __eq__(self, other):
+            return getattr(other, '_is_subscriber', False)
+
+        def __hash__(self):
+            return 7
+
         async def __call__(self, event):
             await body(event)
 
@@ -231,11 +241,19 @@ def impl_direct(case):
     rec = Recorder()
     regs = {}                                  # (obj, event) -> [lid] accepted registrations
     answers, obs = [], []
+    again, repeats = {}, {}
+    for op in case['ops']:
+        if op[0] == 'A':
+            repeats[(op[1], op[2], op[3])] = repeats.get((op[1], op[2], op[3]), 0) + 1
     for n, op in enumerate(case['ops']):
         if op[0] == 'A':
             _, o, evname, lid, acts = op
             key = (o, evname)
-            cb = make_listener(key, lid, acts, TupleValues(), rec, MUTABLE[evname])
+            # an 'A' op repeating an earlier (obj, event, id) registers the SAME callback object again
+            ck = (o, evname, lid)
+            cb = again.get(ck) or make_listener(key, lid, acts, TupleValues(), rec, MUTABLE[evname])
+            if repeats.get(ck, 0) > 1:
+                again[ck] = cb            # held only for listeners that are registered more than once
             try:
                 events.listen(objs[o], getattr(events, evname), cb)
                 regs.setdefault(key, []).append(lid)
@@ -515,6 +533,10 @@ def gen_direct(rng, lid0=1):
                 evname = hooks[rng.choice(meths)][0]
             else:
                 evname = rng.choice(ALL_EVENTS)          # sometimes an event of the other side
+            earlier = [x for x in ops if x[0] == 'A']
+            if earlier and rng.random() < 0.12:
+                ops.append(list(rng.choice(earlier)))        # the same callback registered once more
+                continue
             ops.append(['A', o, evname, lid, gen_acts(rng, evname, flag_kind=flag_kind)])
             lid += 1
         else:
@@ -796,11 +818,22 @@ class Call:
             if c['explicit_im']:
                 await stream.send_initial_metadata(metadata=md_pairs(c['im0']))
             rest = c['reps']
+        extra = (c.get('app') or {}).get('extra_s', [])
+        sent = len(c['reps']) if c['status'] != 'early' else 0
+
+        async def premature(op, fn, *a, **kw):
+            try:
+                await fn(*a, **kw)
+                self.seen.setdefault('accepted', []).append(op)
+            except ProtocolError:
+                self.seen.setdefault('refused', []).append(op)
+        if 'early_trailing' in extra and c['card'][1] == 'U':
+            # OK trailers before the single reply of a unary response: refused, nothing goes out, and the
+            # handler carries on (or ends: then __aexit__ sends the real trailers, once)
+            await premature('early_trailing', stream.send_trailing_metadata, metadata=md_pairs([97]))
         if c['status'] != 'early':
             for r in rest:
                 await stream.send_message(bytes(r))
-        extra = (c.get('app') or {}).get('extra_s', [])
-        sent = len(c['reps']) if c['status'] != 'early' else 0
 
         async def refused(op, fn, *a, **kw):
             # an operation the library must refuse before emitting anything; the handler copes and goes on
@@ -935,10 +968,16 @@ def register(case, side, target, rec, call, bits):
         s, evname = key.split(':')
         if s != side:
             continue
+        count = {}
         for lid, acts in ls:
-            events.listen(target, getattr(events, evname),
-                          make_listener(key, lid, acts, WireValues(call.make_handler, bits + lid), rec,
-                                        MUTABLE[evname]))
+            count[lid] = count.get(lid, 0) + 1
+        held = {}
+        for lid, acts in ls:
+            cb = held.get(lid) or make_listener(key, lid, acts, WireValues(call.make_handler, bits + lid), rec,
+                                                MUTABLE[evname])
+            if count[lid] > 1:
+                held[lid] = cb            # registered more than once: the same object each time
+            events.listen(target, getattr(events, evname), cb)
             n += 1
     return n
 
@@ -1412,8 +1451,8 @@ def gen_e2e(rng, mode=None):
         'catch': rng.random() < 0.45, 'explicit_tm': rng.random() < 0.5,
         'extra_c': [op for op in ('send_request', 'send_message', 'recv_initial_metadata',
                                   'recv_trailing_metadata', 'end') if rng.random() < 0.15],
-        'extra_s': [op for op in ('send_initial_metadata', 'send_message', 'send_trailing_metadata')
-                    if rng.random() < 0.2]}
+        'extra_s': [op for op in ('send_initial_metadata', 'send_message', 'send_trailing_metadata',
+                                  'early_trailing') if rng.random() < 0.2]}
     if mode == 'client' and not mid and rng.random() < 0.15:
         case['status'] = 'reset'                 # the scripted server resets the stream after its replies
     if mid:
@@ -1435,6 +1474,8 @@ def gen_e2e(rng, mode=None):
         for _ in range(rng.choice([1, 1, 2, 3])):
             ls.append([lid, gen_e2e_acts(rng, key.split(':')[1])])
             lid += 1
+        if rng.random() < 0.15:
+            ls.append(list(rng.choice(ls)))                  # one listener registered a second time
         case['listeners'][key] = ls
     return case
 
